@@ -30,7 +30,7 @@ func Boundary(k Kind) []V {
 		return out
 	case Int64, Sint64, Sfixed64:
 		var out []V
-		for _, x := range []int64{0, 1, -1, 1 << 31, -(1 << 31) - 1, 1 << 32, 1<<53 - 1, 1 << 53, 1<<53 + 1, -(1<<53 + 1), 999999999999999999, 1000000000000000000, math.MaxInt64, math.MinInt64} {
+		for _, x := range []int64{0, 1, -1, 1 << 31, -(1 << 31) - 1, 1 << 32, 1<<53 - 1, 1 << 53, 1<<53 + 1, -(1<<53 + 1), 999999999999999999, 1000000000000000000, math.MaxInt64, math.MaxInt64 - 1, math.MinInt64, math.MinInt64 + 1, -(1 << 62) - 1} {
 			out = append(out, i64(x))
 		}
 		return out
